@@ -17,7 +17,7 @@ def c02(tier, seed):
 
 
 def c03(tier, seed):
-    return combine(fam_list(tier, ['core_q', 'split_q', 'events_q', 'events_split_q'], ['core_t', 'split_t', 'events_t', 'events_split_t']), 'covered',
+    return combine(fam_list(tier, ['core_q', 'split_q', 'events_q', 'events_split_q'], ['core_t', 'split_t', 'events_t', 'events_split_t']) + [fx_family(tier)], ['covered', 'multi_foreign_field'],
                    'every cell ledger of the family; non-trivial = accepted ledgers (legs + closing cost vs expenditure); '
                    'for ledgers with capital events TLC re-runs the specification on the observed apportionment')
 
@@ -48,7 +48,7 @@ def laws(tier, quick, thorough):
 
 
 def c10(tier, seed):
-    return combine(laws(tier, ['rescale_q', 'rescale_two_q', 'unsplit_q'], ['rescale_t', 'rescale5_t', 'unsplit_t']) + fam_list(tier, ['split_q', 'two_split_q', 'events_split_q'], ['split_t', 'events_split_t']),
+    return combine(laws(tier, ['rescale_q', 'rescale_two_q', 'rescale_events_q', 'unsplit_q'], ['rescale_t', 'rescale5_t', 'unsplit_t']) + fam_list(tier, ['split_q', 'two_split_q', 'events_split_q'], ['split_t', 'events_split_t']),
                    ['nontrivial', 'with_splits'],
                    'pairs (ledger with one split at every position, same ledger rewritten in post-split units) and (ledger, '
                    'ledger + SPLIT f .. UNSPLIT f with no trade between): TLC checks the law between the two specification '
